@@ -9,11 +9,13 @@ RULE = ("one fitted SlidingWindowTransformer per case, applied to 3-8 integer-va
         "{None, integer n, (start, stride) pair, index list/array incl. permutations, repeats and lists as long as or "
         "longer than the window}, pad_width 0..3 with an integer pad_value, kernels None / average / differences(start, "
         "step, stride) / weight / integer matrix and chains of two; SequentialDifferenceTransformer for stride 1..6 on "
-        "every length >= stride+1; each case run normally and under NUMBA_BOUNDSCHECK=1; a small malformed stream "
+        "every length >= stride+1; about a third of the estimators had an earlier fit with another stride / other kernels "
+        "before set_params + fit (two kernels of > 1000 entries that agree near their corners included); each case run normally and under NUMBA_BOUNDSCHECK=1; a small malformed stream "
         "(sequence shorter than the window, kernel parameters out of range, wrong weight length) only compares the "
         "model's rejection with the implementation's. Non-trivial = sample other than None, or stride not dividing "
         "L - width + 1, or padding, or a difference stride >= 2.")
 ASSUMPTIONS = [
+    "windows wider than 200 entries are decided by the definition-based oracle only (the list-based Lean model is quadratic there)",
     "values are exact rationals in the model; inputs are integers (exact in float64); the 'average' kernel and non-dyadic "
     "results are compared within 1e-9 relative, everything else exactly",
     "pad_value is representable in the sequence dtype (np.full(..., dtype=sequence.dtype) would truncate 0.5 for an int array)",
@@ -54,6 +56,22 @@ def corpus():
         cs.append({"kind": "sd", "seqs": [list(range(st + 1, 2 * st + 6)), [x * x for x in range(st + 1)],
                                           [x * x for x in range(st + 4)]], "stride": st, "dtype": "float64"})
     cs.append({"kind": "sd", "seqs": [[[i * i, -i] for i in range(7)]], "stride": 2, "dtype": "int64"})
+    # histories: stride changed between two fits of one estimator
+    for a, b in ((1, 3), (3, 1), (2, 5)):
+        cs.append({"kind": "sd", "seqs": [list(range(3, 14)), [x * x for x in range(9)]], "stride": b, "dtype": "float64",
+                   "prefit": {"stride": a}})
+    # two large kernels (more than 1000 entries) that agree near their corners, used one after the other in one process
+    W = 34
+    K1 = [[(i * 7 + j * 3) % 5 - 2 for j in range(W)] for i in range(W)]
+    K2 = [[(K1[i][j] + (1 if 4 <= i < W - 4 and 4 <= j < W - 4 else 0)) for j in range(W)] for i in range(W)]
+    seqs = [[(i * i + 3 * i) % 11 - 5 for i in range(W + 7)], [i % 4 for i in range(W)]]
+    cs.append(_sw(seqs, W, 3, None, [{"k": "matrix", "m": K2}]))
+    cs[-1]["prefit"] = {"s": 1, "kernels": [{"k": "matrix", "m": K1}]}
+    W = 1040
+    w1 = [(i % 7) - 3 for i in range(W)]
+    w2 = [w1[i] + (1 if 8 <= i < W - 8 else 0) for i in range(W)]
+    cs.append(_sw([[(i * i) % 13 - 6 for i in range(W + 4)]], W, 2, None, [{"k": "weight", "w": w2}]))
+    cs[-1]["prefit"] = {"s": 2, "kernels": [{"k": "weight", "w": w1}]}
     return cs
 
 
@@ -149,12 +167,17 @@ def generate(rng, tier):
             lens.append(Lmin + rng.randint(10, 40))
         cs.append(_sw([_rand_seq(rng, L, d) for L in lens], w, s, sample, kernels, p,
                       rng.choice([0, 0, 7, -1]), rng.choice(["float64", "float64", "int64"])))
+        if rng.random() < 0.3:
+            pk = [_rand_kernel(rng, k)] if rng.random() < 0.7 else []
+            cs[-1]["prefit"] = {"s": rng.randint(1, 5), "kernels": pk}
     for i in range(n_sd):
         st = (i % 6) + 1
         d = rng.choice([1, 1, 2])
         lens = [st + 1 + j for j in range(0, 6)] + [st + rng.randint(8, 30)]
         cs.append({"kind": "sd", "seqs": [_rand_seq(rng, L, d) for L in lens], "stride": st,
                    "dtype": rng.choice(["float64", "int64"])})
+        if rng.random() < 0.5:
+            cs[-1]["prefit"] = {"stride": rng.choice([x for x in range(1, 7) if x != st])}
     # malformed stream: only the rejection is compared
     for _ in range(8 if tier == "quick" else 60):
         w = rng.randint(2, 6)
@@ -194,9 +217,33 @@ def run_impl(case):
             d = len(q[0])
     X = [np.asarray(q, dtype=dt).reshape((len(q),) if d == 1 else (len(q), d)) for q in case["seqs"]]
     out = {}
+
+    def kernel_objs(specs):
+        ks = []
+        for k in specs:
+            if k["k"] == "average":
+                ks.append("average")
+            elif k["k"] == "differences":
+                ks.append(("differences", k["start"], k["step"], k["stride"]))
+            elif k["k"] == "weight":
+                ks.append(("weight", np.asarray(k["w"], dtype=np.float64)))
+            else:
+                ks.append(np.asarray(k["m"], dtype=np.float64))
+        return ks
     try:
+        pre = case.get("prefit")
         if case["kind"] == "sd":
-            t = SequentialDifferenceTransformer(stride=case["stride"])
+            if pre:
+                # history: the same estimator was fitted and used with another stride first
+                t = SequentialDifferenceTransformer(stride=pre["stride"])
+                try:
+                    t.fit(X)
+                    t.transform(X[-1:])
+                except Exception:
+                    pass
+                t.set_params(stride=case["stride"])
+            else:
+                t = SequentialDifferenceTransformer(stride=case["stride"])
         else:
             sm = case["sample"]
             if sm["kind"] == "all":
@@ -217,8 +264,19 @@ def run_impl(case):
                     ks.append(("weight", np.asarray(k["w"], dtype=np.float64)))
                 else:
                     ks.append(np.asarray(k["m"], dtype=np.float64))
-            t = SlidingWindowTransformer(window_width=case["w"], window_stride=case["s"], window_sample=ws,
-                                         kernels=ks or None, pad_width=case["p"], pad_value=case["v"])
+            if pre:
+                # history: the same estimator (and the same process) worked with other kernels / another stride first
+                t = SlidingWindowTransformer(window_width=case["w"], window_stride=pre["s"], window_sample=ws,
+                                             kernels=kernel_objs(pre["kernels"]) or None, pad_width=case["p"], pad_value=case["v"])
+                try:
+                    t.fit(X)
+                    t.transform(X[-1:])
+                except Exception:
+                    pass
+                t.set_params(window_stride=case["s"], kernels=ks or None)
+            else:
+                t = SlidingWindowTransformer(window_width=case["w"], window_stride=case["s"], window_sample=ws,
+                                             kernels=ks or None, pad_width=case["p"], pad_value=case["v"])
         t.fit(X)
         if case["kind"] == "sw":
             out["sample_"] = [int(x) for x in t.window_sample_]
@@ -254,6 +312,8 @@ def _d(case):
 def model_requests(case, outs):
     d = _d(case)
     reqs = []
+    if case["kind"] == "sw" and case["w"] > 200:
+        return reqs          # very wide windows: list-based model is quadratic; the definition-based oracle decides these
     for q in case["seqs"]:
         cols = _cols(q) if q else [[] for _ in range(d)]
         if case["kind"] == "sd":
@@ -287,6 +347,8 @@ def _exact(case):
 
 def compare(case, outs, resps):
     d = []
+    if case["kind"] == "sw" and case["w"] > 200:
+        return d
     for r in resps:
         if "bad" in r:
             return [f"model rejected request: {r['bad']}"]
@@ -371,7 +433,9 @@ def oracle(case, outs):
         if case.get("malformed"):
             continue
         tag = f"[{mode}] " + (f"stride={case['stride']}" if case["kind"] == "sd" else
-                              f"width={case['w']} stride={case['s']} sample={case['sample']} kernels={case['kernels']} pad=({case['p']},{case['v']})")
+                              f"width={case['w']} stride={case['s']} sample={case['sample']} kernels={str(case['kernels'])[:300]} pad=({case['p']},{case['v']})")
+        if case.get("prefit"):
+            tag += f" after an earlier fit of the same estimator with {str(case['prefit'])[:200]}"
         kk = "sd" if case["kind"] == "sd" else "sw"
         cls = f"stride-{'1' if case['stride'] == 1 else 'ge2'}" if kk == "sd" else \
             "sample-" + case["sample"]["kind"]
